@@ -360,6 +360,29 @@ Proof.
   apply idx_find_upsert_same.
 Qed.
 
+Theorem scan_step_replaces_explicit ex st1 st4 :
+  idx_find (r_key r) (rs_idx st) = Some ex -> e_ts ex <= r_ts r ->
+  let exn := extent_blocks version (N.of_nat (length (e_key ex))) (e_vlen ex) in
+  fs_release st (e_sector ex) exn = Ok st1 ->
+  let st3 := mkrs (rs_idx st1) (rs_fs st1) (rs_count st1)
+                  (wsub (rs_mem st1) (record_size c (N.of_nat (length (e_key ex))) (e_vlen ex)))
+                  (wsub (rs_disk st1) (exn * FEOX_BLOCK_SIZE))
+                  ((e_sector ex, exn) :: rs_retired st1) (rs_last_end st1) (rs_ambiguous st1) in
+  (if rs_last_end st3 <? sector then fs_release st3 (rs_last_end st3) (sector - rs_last_end st3) else Ok st3) = Ok st4 ->
+  scan_step c version total sector (chunk_blocks (encode_extent version sector r) (N.to_nat need) ++ rest') st jl =
+  Ok (Advance (sector + need)
+        (mkrs (idx_upsert (mkentry (r_key r) (r_ts r) (if has_expiry version then r_exp r else 0) vlen sector) (rs_idx st4))
+              (rs_fs st4) (rs_count st4) (wrap64 (rs_mem st4 + record_size c klen vlen))
+              (wrap64 (rs_disk st4 + need * FEOX_BLOCK_SIZE)) (rs_retired st4) (sector + need) (rs_ambiguous st4)) jl).
+Proof.
+  intros Hex Hge exn H1 st3 H4. rewrite scan_step_on_encoded. unfold after_checks. rewrite Hex.
+  destruct (N.ltb_spec (r_ts r) (e_ts ex)); [lia|]. fold exn. rewrite H1. cbn [bind].
+  unfold push_retired. rewrite Hrw. cbn [rs_idx rs_fs rs_count rs_mem rs_disk rs_retired rs_last_end rs_ambiguous]. fold st3.
+  change (rs_last_end st3) with (rs_last_end st1) in H4. rewrite H4. cbn [bind]. reflexivity.
+Qed.
+
+
+
 End OneRecord.
 
 (* ---- a whole data area ---- *)
